@@ -30,7 +30,7 @@ def run_check(run, prop):
     wire = bins["wire"]
     cases = S.directed_cases() + S.gen_cases(run.rng, 110 if quick else 1500)
     models = S.model_observe(cases) if ok else [None] * len(cases)
-    scns = [S.scenario(*c) for c in cases]
+    scns = [S.scenario(*c, inuse=(m[4] if m is not None else None)) for c, m in zip(cases, models)]
     results = W.run_scenarios(wire, scns, timeout=90)
     distinct, nontrivial, handoffs = set(), 0, 0
     opkinds = {}
@@ -67,6 +67,24 @@ def run_check(run, prop):
                        "input": {"ops": case[0], "pool_size": case[1], "session_mode": case[2], "caching": case[3]},
                        "disagreement": dis, "model_events": model[0], "impl": [(cid, [(x["k"], x.get("c"), x.get("sql")) for x in items]) for cid, items in S.impl_conn_logs(res)]},
                       found_input=False)
+    # soak: free-running concurrent clients (thread-level interleavings the op model does not enumerate)
+    nsoak = 4 if quick else 60
+    soaks = [S.soak_scenario(run.rng, run.rng.choice([4, 8, 16]), run.rng.choice([1, 2, 3]), 6 if quick else 25, session_mode=False) for _ in range(nsoak)]
+    sres = W.run_scenarios(wire, soaks, timeout=240)
+    soak_msgs = 0
+    for scn, res in zip(soaks, sres):
+        run.cov["evaluations"] += 1
+        if "harness_error" in res or "start_error" in res:
+            run.broken.append("soak harness failed: %s" % (res.get("harness_error") or res.get("start_error")))
+            continue
+        soak_msgs += len(W.backend_msgs(res))
+        v01, v02 = S.monitors(res, False)
+        for v in (v02 if prop == "C02" else v01)[:1]:
+            run.violation("counterexample", "%s monitor on a concurrent soak run: %s" % (prop, json.dumps(v)), {"input": {"soak": True}, "monitor": v, "scenario": scn})
+        snap = (res.get("snapshots") or [{}])[-1]
+        for b in snap.get("backends", {}).values():
+            ps = max(u["pool_size"] if isinstance(u, dict) and "pool_size" in u else 0 for u in [{}])
+    run.cov["soak"] = {"runs": nsoak, "backend_messages_observed": soak_msgs}
     run.cov["distinct_nontrivial"] = len(distinct)
     run.cov["rule"] = ("13 directed op sequences (regressions of repaired defects) + seeded random sequences of 5-14 ops over 2-3 clients + a canary, pool sizes 1-2, "
                        "transaction/session mode, caching on/off; ops: Connect, Query(1-3 statements of Begin/Commit/Rollback/Select/Set/Prepare/Fail/CopyIn), Batch(named?), CopyDone/Fail, "
